@@ -9,13 +9,14 @@ func init() {
 func runC09(opt *Options) int {
 	lr := &laRun{
 		Opt:  opt,
-		Pkgs: []string{"xtype", "method", "generator", "builder"},
+		Pkgs: []string{"xtype", "method", "generator", "builder", "."},
 		Kernels: []layera.Kernel{
 			{Name: "K10.sortedmembers", Pkg: "xtype", Harness: "VerifHarness_C09_SortedMembers", Unwind: 24, ReplayTries: 12},
 			{Name: "K10.unused", Pkg: "xtype", Harness: "VerifHarness_C09_Unused", Unwind: 24, ReplayTries: 12},
 			{Name: "K10.contextdebug", Pkg: "method", Harness: "VerifHarness_C09_ContextDebug", Unwind: 32, ReplayTries: 12},
 			{Name: "K10.genmethods", Pkg: "generator", Harness: "VerifHarness_C09_GenMethods", Unwind: 24, ReplayTries: 12},
 			{Name: "K10.validatemethods", Pkg: "generator", Harness: "VerifHarness_C09_ValidateMethods", Unwind: 24, ReplayTries: 12},
+			func() layera.Kernel { k := kernelGenerateConverters("c09"); k.Name = "K8.writefiles"; return k }(),
 			{Name: "K10.unknownfields", Pkg: "builder", Harness: "VerifHarness_C09_UnknownFields", Unwind: 24, ReplayTries: 12},
 		},
 		Funcs:  []string{"xtype.Enum.SortedMembers", "xtype.UsageFromMap", "xtype.UsageChecker.Used/Unused", "method.AvailableContextDebug", "method.(*Index).Register/GetAll", "generator.(*generator).getGenMethods", "generator.validateMethods", "builder.(*Struct).Assign (tail: configured fields that do not exist)", "builder.(*MethodContext).DefinedFields"},
